@@ -152,37 +152,41 @@ void vp_fill_stream(uint8_t *dst, size_t n, uint32_t seed) {
 
 /* ------------------------------------------------------------------ ledger */
 
-typedef struct { void *p; size_t sz; } led_ent;
+/* Pointers are stored masked so that the ledger itself does not keep leaked blocks "reachable"
+ * in LeakSanitizer's eyes. */
+typedef struct { uintptr_t k; size_t sz; } led_ent;
 static VP_TLS led_ent *led_tab;
 static VP_TLS size_t led_cap, led_used;   /* used counts live + tombstones */
-#define LED_TOMB ((void *)1)
+#define LED_MASK ((uintptr_t)0x5a5a5a5a5a5a5a5aull)
+#define LED_EMPTY ((uintptr_t)0)
+#define LED_TOMB ((uintptr_t)1)
+#define LED_KEY(p) (((uintptr_t)(p)) ^ LED_MASK)
 
-static size_t led_hash(void *p, size_t cap) {
-    uintptr_t v = (uintptr_t)p;
+static size_t led_hash(uintptr_t v, size_t cap) {
     v ^= v >> 17; v *= 0x9E3779B97F4A7C15ull; v ^= v >> 29;
     return (size_t)v & (cap - 1);
 }
 
-static void led_insert_raw(led_ent *tab, size_t cap, void *p, size_t sz) {
-    size_t i = led_hash(p, cap);
-    while (tab[i].p && tab[i].p != LED_TOMB) i = (i + 1) & (cap - 1);
-    tab[i].p = p; tab[i].sz = sz;
+static void led_insert_raw(led_ent *tab, size_t cap, uintptr_t k, size_t sz) {
+    size_t i = led_hash(k, cap);
+    while (tab[i].k != LED_EMPTY && tab[i].k != LED_TOMB) i = (i + 1) & (cap - 1);
+    tab[i].k = k; tab[i].sz = sz;
 }
 
 static void led_grow(void) {
     size_t ncap = led_cap ? led_cap * 2 : 1024;
-    /* if mostly tombstones, rehash in place size */
+    /* if mostly tombstones, rehash at the same size */
     if (led_cap && vp_led.live_cnt * 4 < led_cap) ncap = led_cap;
     led_ent *nt = calloc(ncap, sizeof(*nt));
     for (size_t i = 0; i < led_cap; i++)
-        if (led_tab[i].p && led_tab[i].p != LED_TOMB) led_insert_raw(nt, ncap, led_tab[i].p, led_tab[i].sz);
+        if (led_tab[i].k != LED_EMPTY && led_tab[i].k != LED_TOMB) led_insert_raw(nt, ncap, led_tab[i].k, led_tab[i].sz);
     free(led_tab);
     led_tab = nt; led_cap = ncap; led_used = (size_t)vp_led.live_cnt;
 }
 
 static void led_add(void *p, size_t sz) {
     if ((led_used + 1) * 2 > led_cap) led_grow();
-    led_insert_raw(led_tab, led_cap, p, sz);
+    led_insert_raw(led_tab, led_cap, LED_KEY(p), sz);
     led_used++;
     vp_led.live_cnt++;
     vp_led.live_bytes += sz;
@@ -191,11 +195,12 @@ static void led_add(void *p, size_t sz) {
 
 static int led_del(void *p, size_t *sz) {
     if (!led_cap) return 0;
-    size_t i = led_hash(p, led_cap);
-    for (size_t n = 0; n < led_cap && led_tab[i].p; n++, i = (i + 1) & (led_cap - 1)) {
-        if (led_tab[i].p == p) {
+    uintptr_t k = LED_KEY(p);
+    size_t i = led_hash(k, led_cap);
+    for (size_t n = 0; n < led_cap && led_tab[i].k != LED_EMPTY; n++, i = (i + 1) & (led_cap - 1)) {
+        if (led_tab[i].k == k) {
             *sz = led_tab[i].sz;
-            led_tab[i].p = LED_TOMB;
+            led_tab[i].k = LED_TOMB;
             vp_led.live_cnt--;
             vp_led.live_bytes -= *sz;
             return 1;
